@@ -162,7 +162,13 @@ def make_probe(rep):
             k += 1
         if body is None:
             continue
-        inserts.append((s + ts[body][3], b['name'] + ' body'))
+        # with `loop_isolation(false)` the loops are verified in the same query as the body, and after a failed assertion Verus
+        # assumes it: a body probe would mask the loop probe.  The (first) loop probe stands for both - it is only reachable,
+        # and only rejected, if the precondition and the invariant are satisfiable together
+        shared_query = 'loop_isolation(false)' in seg
+        if not shared_query:
+            inserts.append((s + ts[body][3], b['name'] + ' body'))
+        n_before = len(inserts)
         end = match_close(ts, body)
         k = body + 1
         while k < end:
@@ -187,12 +193,15 @@ def make_probe(rep):
                         if ts[j + 1][1] == 'let' and ts[j + 2][1].startswith('__'):
                             j = match_close(ts, j) + 1
                             continue
-                        inserts.append((s + ts[j][3], b['name'] + ' loop'))
+                        if not (shared_query and len(inserts) > n_before):
+                            inserts.append((s + ts[j][3], b['name'] + ' loop'))
                         break
                     j += 1
                 k = j + 1
                 continue
             k += 1
+        if shared_query and len(inserts) == n_before:
+            inserts.append((s + ts[body][3], b['name'] + ' body'))
     inserts.sort()
     out = []
     pos = 0
